@@ -132,7 +132,12 @@ def framedBody (c : Codec) (r : Reader) (dstLen : Nat) : Reader × Chunk :=
   else
     let frame := deN l
     let input := (r.rest.drop 4).take frame
-    if input.length < frame then ({ r with rest := [], nbytes := r.nbytes + 4 + input.length }, .err)
+    if input.length < frame then
+      -- `if _, err := x.readFull(x.input); err != nil { return 0, err }`: io.ReadFull answers io.EOF when NOT ONE byte of
+      -- the block is there, io.ErrUnexpectedEOF when some are: a stream that stops right after a length field is
+      -- reported as a clean end (observation, docs/notes/C16.md)
+      if input = [] then ({ r with rest := [], nbytes := r.nbytes + 4 }, .eof)
+      else ({ r with rest := [], nbytes := r.nbytes + 4 + input.length }, .err)
     else decodeInto c { r with rest := r.rest.drop (4 + frame), nbytes := r.nbytes + 4 + frame } input dstLen
 
 /-- unframed branch: the header bytes already read plus everything up to EOF is one raw block -/
@@ -188,6 +193,26 @@ def readAllWith (c : Codec) : Reader → List Nat → Option Bytes
     | (r', .data b) => (readAllWith c r' ks).map (b ++ ·)
     | (_, .eof) => some []
     | (_, .err) => none
+
+/-- everything a consumer with buffer sizes `ks` receives before the end, an error, or running out of sizes -/
+def readAllOut (c : Codec) : Reader → List Nat → Bytes
+  | _, [] => []
+  | r, k :: ks =>
+    match read c (r.rest.length + 2) r k with
+    | (r', .data b) => b ++ readAllOut c r' ks
+    | _ => []
+
+/-- `WriteTo(w)` (what io.Copy uses): write what is pending in `output`, then chunk after chunk (`readChunk(nil)`:
+no direct decoding except for empty blocks) until EOF; the result is everything written to `w` -/
+def writeTo (c : Codec) : Nat → Reader → Option Bytes
+  | 0, _ => none
+  | fuel + 1, r =>
+    let pend := r.output.drop r.offset
+    match readChunk c { r with offset := r.output.length } 0 with
+    | (_, .eof) => some pend
+    | (_, .err) => none
+    | (r', .direct b) => (writeTo c fuel r').map (fun t => pend ++ (b ++ t))
+    | (r', .buffered) => (writeTo c fuel r').map (fun t => pend ++ t)
 
 /-- `WriteTo`-style consumption: chunk after chunk until EOF -/
 def drain (c : Codec) : Nat → Reader → Option Bytes
